@@ -313,6 +313,13 @@ def runOp (op : String) (dbg : Bool) (a : List String) : Option (Out × Out) := 
   | "hash", [v] =>
     let v ← parseVec v
     pure (.ok [.hash (hashStream v)], .ok [.hash (specHash (wordWidth v.ty) v.abs)])
+  | "hugecounts", [n, ps] =>   -- a vector of n > 2^32 bits with the listed bits set: closed forms (the value itself is never built)
+    let n ← n.toNat?
+    let ps ← (if ps = "-" then some [] else (ps.splitOn ",").mapM fun (t : String) => t.toNat?)
+    let top := ps.foldl (fun m p => max m (p + 1)) 0
+    let low := ps.foldl (fun m p => min m p) n
+    let r : Out := .ok [.nat (n - top), .nat low, .nat top, .bool ps.isEmpty, .bool true, .bool true]
+    pure (r, r)
   | "eqhash", [l, r] =>   -- same type: a == b, b == a, and (equal → same hasher input)
     let l ← parseVec l; let r ← parseVec r
     let se := l.abs.val == r.abs.val
